@@ -167,13 +167,18 @@ def run(ctx):
     if not ok:
         raise vlib.CheckError("model does not compile: %s" % failed)
     cases = gen_cases(ctx)
-    c_out = fcorr.run_c(cbin, [c[0] for c in cases])
+    crashes = []
+    c_out = fcorr.run_c(cbin, [c[0] for c in cases], crashes=crashes)
+    for idx, msg in crashes:
+        ctx.report("%s/sanitizer" % cases[idx][2][0], "the C aborted on this case: " + msg,
+                   {"case": cases[idx][0], "inputs": [repr(x) for x in cases[idx][2][1:]], "stderr": msg})
+    crashed = set(i for i, _ in crashes)
     m_out = fcorr.run_model(ctx, "c12cases", ["C12.PidDefs"], [c[1] for c in cases], shard=30)
     nd = 0
     kinds = {}
     for i, (cl, ce, meta) in enumerate(cases):
         kinds[meta[0]] = kinds.get(meta[0], 0) + 1
-        if c_out[i] != m_out[i]:
+        if i not in crashed and c_out[i] != m_out[i]:
             nd += 1
             if nd <= 3:
                 j = next((k for k in range(min(len(c_out[i]), len(m_out[i]))) if c_out[i][k] != m_out[i][k]), -1)
@@ -185,6 +190,8 @@ def run(ctx):
         if meta[0] == "posinc":
             peers.setdefault(meta[4], {})[meta[3]] = [fcorr.fval(b) for b in c_out[i]]
     for i, (cl, ce, meta) in enumerate(cases):
+        if i in crashed:
+            continue
         vals = [fcorr.fval(b) for b in c_out[i]]
         peer = peers.get(meta[4], {}).get(1) if meta[0] == "posinc" and meta[3] == 2 else None
         why = oracle(meta, vals, peer)
